@@ -1,81 +1,48 @@
-import WindVerif.Model.Storage
-import WindVerif.Proofs.StorageInv10
-import WindVerif.Proofs.StorageFlush
-/-! Theorems about the interleaving model of `TextFileStorage` (C14). -/
-namespace WindVerif.Storage
+import WindVerif.Proofs.Storage
+/-!
+# C14 — TextFileStorage: what is stored under an id is what any process reads back
 
-/-- reachable from the start state of `presize` and the process scripts, under some interleaving -/
-def Reach (presize : Nat) (scripts : List (List Op)) (s : St) : Prop :=
-  ∃ sched, run (start (init presize scripts)) sched = some s
-
-def NoFlush (scripts : List (List Op)) : Prop := ∀ sc ∈ scripts, Op.flush ∉ sc
-
-/-- the line a reader gets when it follows the index entry of identifier `g` now -/
-def entryLine (s : St) (g : Nat) : Option (List (Option Nat)) :=
-  match s.index[g]? with
-  | some (some (w, off)) => some (readlineAt ((fileOf s w).getD []) off)
-  | _ => none
-
-def stored (s : St) (g : Nat) : Bool :=
-  match s.index[g]? with
-  | some (some _) => true
-  | _ => false
-
-/-- the k-th operation of process i and its result, once it has one -/
-def resultOf (scripts : List (List Op)) (s : St) (i k : Nat) : Option (Op × Res) :=
-  match scripts[i]?, s.procs[i]? with
-  | some sc, some p => (match sc[k]?, p.results[k]? with | some op, some r => some (op, r) | _, _ => none)
-  | _, _ => none
+Property theorems only (proofs in `Proofs/Storage*.lean`) about the interleaving model `Model/Storage.lean`: any number of
+processes with their own copy of the storage object, arbitrary scripts of store / read / len / is_contiguous / iterate
+operations (`NoFlush`: `flush()` is a separate theorem, it requires everybody else to be done), pre-sized index or not, and
+**every interleaving** of their visible operations (`Reach presize scripts s`).  `resultOf scripts s i k` is the k-th
+operation of process `i` together with its result once it has one.
+-/
+namespace WindVerif.C14
+open WindVerif.Storage
 
 /-- published ⇒ durable, under every interleaving of any number of writers and readers: an index entry always points at a
 complete line (text and terminator) in an existing file -/
 theorem published_durable (presize : Nat) (scripts : List (List Op)) (hnf : NoFlush scripts) (s : St)
     (hr : Reach presize scripts s) (g : Nat) (l : List (Option Nat)) (h : entryLine s g = some l) :
     ∃ t, l = [some t, none] := by
-  obtain ⟨sched, hr⟩ := hr
-  exact (reach_AB hnf hr).2.durable (g := g) h
+  first | exact WindVerif.Storage.published_durable .. | (apply WindVerif.Storage.published_durable <;> assumption)
 
 /-- an index entry, once published, never changes, and neither does the line it points at (files are append-only) -/
 theorem published_stable (presize : Nat) (scripts : List (List Op)) (hnf : NoFlush scripts) (s : St)
     (hr : Reach presize scripts s) (sched : List Nat) (s' : St) (hs : run s sched = some s') (g : Nat)
     (l : List (Option Nat)) (h : entryLine s g = some l) : entryLine s' g = some l ∧ s'.index[g]? = s.index[g]? := by
-  obtain ⟨sched0, hr⟩ := hr
-  obtain ⟨hA, hB⟩ := reach_AB hnf hr
-  exact stable_run hA hB hs (g := g) h
+  first | exact WindVerif.Storage.published_stable .. | (apply WindVerif.Storage.published_stable <;> assumption)
 
 /-- what is stored under an id is what any process reads back: a finished read of `g` either raised `IndexError` or
 returned exactly the complete line of the text of a store of `g` that succeeded — never empty, partial or another id's -/
 theorem read_spec (presize : Nat) (scripts : List (List Op)) (hnf : NoFlush scripts) (s : St)
     (hr : Reach presize scripts s) (i k g : Nat) (r : Res) (h : resultOf scripts s i k = some (.read g, r)) :
     r = .indexError ∨ ∃ j k' t, resultOf scripts s j k' = some (.store g t, .ok) ∧ r = .text [some t, none] := by
-  obtain ⟨sched, hr⟩ := hr
-  obtain ⟨_, _, hC⟩ := reach_ABC hnf hr
-  obtain ⟨sc, p, h1, h2, h3, h4⟩ := resultOf'_some.1 h
-  rcases (hC.loc1 i p h2).resRead sc k g r h1 h3 h4 with h5 | ⟨t, ⟨j, k', h5⟩, h6⟩
-  · exact Or.inl h5
-  · exact Or.inr ⟨j, k', t, h5, h6⟩
+  first | exact WindVerif.Storage.read_spec .. | (apply WindVerif.Storage.read_spec <;> assumption)
 
 /-- storing twice under one id: at most one store of `g` succeeds, every other finished one raised `ValueError` -/
 theorem store_once (presize : Nat) (scripts : List (List Op)) (hnf : NoFlush scripts) (s : St)
     (hr : Reach presize scripts s) (i k j k' g t t' : Nat) (r r' : Res)
     (h1 : resultOf scripts s i k = some (.store g t, r)) (h2 : resultOf scripts s j k' = some (.store g t', r'))
     (hne : (i, k) ≠ (j, k')) : (r = .ok ∨ r = .valueError) ∧ ¬ (r = .ok ∧ r' = .ok) := by
-  obtain ⟨sched, hr⟩ := hr
-  obtain ⟨_, _, hC⟩ := reach_ABC hnf hr
-  obtain ⟨sc, p, e1, e2, e3, e4⟩ := resultOf'_some.1 h1
-  refine ⟨((hC.loc1 i p e2).resStore sc k g t r e1 e3 e4).1, ?_⟩
-  rintro ⟨rfl, rfl⟩
-  obtain ⟨h3, h4⟩ := hC.uniqOk i k j k' g t t' h1 h2
-  exact hne (by rw [h3, h4])
+  first | exact WindVerif.Storage.store_once .. | (apply WindVerif.Storage.store_once <;> assumption)
 
 /-- a successful store makes the id stored; a failed one (ValueError) found it stored -/
 theorem store_result (presize : Nat) (scripts : List (List Op)) (hnf : NoFlush scripts) (s : St)
     (hr : Reach presize scripts s) (i k g t : Nat) (r : Res) (h : resultOf scripts s i k = some (.store g t, r)) :
     stored s g = true := by
-  obtain ⟨sched, hr⟩ := hr
-  obtain ⟨_, _, hC⟩ := reach_ABC hnf hr
-  obtain ⟨sc, p, e1, e2, e3, e4⟩ := resultOf'_some.1 h
-  exact ((hC.loc1 i p e2).resStore sc k g t r e1 e3 e4).2
+  first | exact WindVerif.Storage.store_result .. | (apply WindVerif.Storage.store_result <;> assumption)
 
 /-- the counters, whenever nobody is inside a critical section: `len()` is the number of stored ids and `_waiting_for` is
 the smallest id that is not stored -/
@@ -83,33 +50,13 @@ theorem counters_quiescent (presize : Nat) (scripts : List (List Op)) (hnf : NoF
     (hr : Reach presize scripts s) (hq : s.lock = none) :
     s.cnt = ((List.range s.index.length).filter (stored s)).length ∧ (∀ g, g < s.wf → stored s g = true) ∧
     stored s s.wf = false := by
-  obtain ⟨sched, hr⟩ := hr
-  obtain ⟨_, _, _, hD⟩ := reach_ABCD hnf hr
-  obtain ⟨h1, h2, h3⟩ := hD.free hq
-  refine ⟨?_, h2, h3⟩
-  rw [h1, ← nSt_eq_filter]; rfl
+  first | exact WindVerif.Storage.counters_quiescent .. | (apply WindVerif.Storage.counters_quiescent <;> assumption)
 
 /-- `is_contiguous()` (evaluated in such a state) is true exactly when the stored ids are `0 .. len-1` -/
 theorem contiguous_iff (presize : Nat) (scripts : List (List Op)) (hnf : NoFlush scripts) (s : St)
     (hr : Reach presize scripts s) (hq : s.lock = none) :
     (s.wf = s.cnt) ↔ (∀ g, stored s g = true ↔ g < s.cnt) := by
-  obtain ⟨sched, hr⟩ := hr
-  obtain ⟨_, _, _, hD⟩ := reach_ABCD hnf hr
-  obtain ⟨h1, h2, h3⟩ := hD.free hq
-  have hst : ∀ g, stored s g = stL s.index g := fun _ => rfl
-  obtain ⟨p1, p2⟩ := pigeon s.index s.wf h2
-  constructor
-  · intro h g
-    rw [hst]
-    constructor
-    · intro hg; have := p2 (by omega) g hg; omega
-    · intro hg; exact h2 g (by omega)
-  · intro h
-    have h4 : ¬ s.wf < s.cnt := by
-      intro hlt
-      have := (h s.wf).2 hlt
-      rw [hst, h3] at this; cases this
-    omega
+  first | exact WindVerif.Storage.contiguous_iff .. | (apply WindVerif.Storage.contiguous_iff <;> assumption)
 
 /-- iteration (which holds the lock throughout) yields every stored text in id order, skipping gaps -/
 theorem iter_spec (presize : Nat) (scripts : List (List Op)) (hnf : NoFlush scripts) (s s' : St)
@@ -117,9 +64,7 @@ theorem iter_spec (presize : Nat) (scripts : List (List Op)) (hnf : NoFlush scri
     (hs : step s i = some s') :
     ∃ p', s'.procs[i]? = some p' ∧
       p'.results = p.results ++ [.texts ((List.range s.index.length).filterMap (entryLine s))] := by
-  obtain ⟨sched, hr⟩ := hr
-  obtain ⟨_, _, hE⟩ := reach_ABE hnf hr
-  exact iter_result hE hp hpc hs
+  first | exact WindVerif.Storage.iter_spec .. | (apply WindVerif.Storage.iter_spec <;> assumption)
 
 /-- `flush()`: running the flushing process through its critical section (it holds the lock, nobody else can interfere with
 the shared state) removes every listed file and leaves the storage in its initial state -/
@@ -128,7 +73,12 @@ theorem flush_clears (s : St) (i : Nat) (p : Proc) (hp : s.procs[i]? = some p) (
     ∃ sched s' p', run s sched = some s' ∧ (∀ j ∈ sched, j = i) ∧ s'.procs[i]? = some p' ∧ p'.pc = .fRel ∧
       s'.paths = [] ∧ s'.index = [] ∧ s'.cnt = 0 ∧ s'.wf = 0 ∧
       (∀ w, some w ∈ s.paths → fileOf s' w = none) := by
-  have _ := hlock   -- the lock is not needed for the execution itself (no `acquire` on the way)
-  exact flush_run s i p hp hpc hk
+  first | exact WindVerif.Storage.flush_clears .. | (apply WindVerif.Storage.flush_clears <;> assumption)
 
-end WindVerif.Storage
+/-- non-vacuity: a reader polls id 1 while the writer is storing it; it gets IndexError first, the complete line later -/
+example : ((run (start (init 0 [[.store 1 5], [.read 1, .read 1]]))
+    ([1, 1, 1] ++ List.replicate 19 0 ++ List.replicate 8 1)).map (fun s => s.procs.map (·.results))) =
+    some [[.ok], [.indexError, .text [some 5, none]]] := by decide
+example : NoFlush [[.store 1 5], [.read 1, .read 1]] := by unfold NoFlush; decide
+
+end WindVerif.C14
